@@ -160,6 +160,58 @@ Verdict anyTypeProp(Ctx& c) {
   return res.verdict;
 }
 
+// Two tuple-typed operands that differ in exactly one component (first, middle or last), meeting in every operation that
+// demands compatible operands.  The checker must reject them; if it accepts one, the evaluation must still be safe.  Exhaustive.
+Verdict tupleMismatchProp(Ctx& c) {
+  static const Gamma G = [] {
+    Gamma g;
+    { Global x; x.name = "X1"; x.isBase = true; x.type = Ty::Set(Ty::Base("X1")); x.value = Val::Set({Val::Int(1), Val::Int(2)}); g.globals.push_back(x); }
+    { Global d; d.name = "D1"; d.type = Ty::Base("X1"); d.value = Val::Int(1); g.globals.push_back(d); }
+    return g;
+  }();
+  const int arity = c.ipick(2, 3), pos = c.ipick(0, arity - 1), how = c.ipick(0, 1);
+  auto tuple = [&](bool mismatch, bool asSet) {  // a tuple term, or the product set of its component types
+    std::string t = asSet ? "" : "(";
+    for (int i = 0; i < arity; ++i) {
+      const bool odd = mismatch && i == pos;
+      if (asSet) t += std::string(i ? "\xC3\x97" : "") + (odd ? (how ? "\xE2\x84\xAC(X1)" : "(X1\xC3\x97X1)") : "X1");
+      else t += std::string(i ? "," : "") + (odd ? (how ? "{D1}" : "(D1,D1)") : "D1");
+    }
+    return t + (asSet ? "" : ")");
+  };
+  const std::string L = tuple(false, false), R = tuple(true, false), SL = tuple(false, true), SR = tuple(true, true);
+  static const int kForms = 12;
+  std::string text;
+  switch (c.ipick(0, kForms - 1)) {
+    case 0: text = L + "=" + R; break;
+    case 1: text = L + "\xE2\x89\xA0" + R; break;
+    case 2: text = L + "\xE2\x88\x88" + SR; break;
+    case 3: text = L + "\xE2\x88\x89{" + R + "}"; break;
+    case 4: text = "{" + L + "}\xE2\x8A\x86" + SR; break;
+    case 5: text = SL + "\xE2\x8A\x82" + SR; break;
+    case 6: text = "card({" + L + "}\xE2\x88\xAA{" + R + "})"; break;
+    case 7: text = "{" + L + "," + R + "}"; break;
+    case 8: text = "Fi1,2[" + SR + "]({" + L + "})"; break;
+    case 9: text = "R{t:=" + L + "|1=1|" + R + "}"; break;
+    case 10: text = "D{t\xE2\x88\x88" + SL + "|t=" + R + "}"; break;
+    default: text = "\xE2\x88\x80t\xE2\x88\x88{" + L + "} t\xE2\x88\x88" + SR; break;
+  }
+  c.show << "tuple mismatch at component " << pos + 1 << " of " << arity << ": " << text;
+  c.exec();
+  LibEnv env(G, false);
+  rl::Auditor audit(env, env.valueContext(), env.astContext());
+  const bool accepted = audit.CheckType(text, rl::Syntax::MATH);
+  c.label(accepted ? "tuple-mismatch:accepted" : "tuple-mismatch:rejected");
+  c.nontrivial = true;
+  if (!accepted) { CHECK(audit.Errors().HasCriticalErrors(), "reject-without-error", "'" + text + "' rejected without a critical error"); return pbt::pass(); }
+  const rl::ExpressionType libType = audit.GetType();
+  const Ty reported = fromLibExprType(libType);
+  const auto res = pbt::inChild([&] { return evalAccepted(c, G, text, rl::Syntax::MATH, false, reported, libType, "data"); }, 4);
+  if (res.status == pbt::ChildResult::TIMEOUT || res.status == pbt::ChildResult::STARVED) { c.count("inconclusive-timeout"); return pbt::pass(); }
+  if (res.status == pbt::ChildResult::CRASH) return pbt::fail("crash", "evaluation of accepted '" + text + "' crashed: " + res.crashInfo);
+  return res.verdict;
+}
+
 Verdict binderProp(Ctx& c) {
   TypedGen g(c);
   g.makeContext();
@@ -229,6 +281,7 @@ int main(int argc, char** argv) {
   props.push_back({"accepted_with_name_reuse", soundScopingProp, 800, 6000, false, false, "the same with binders re-declaring names of ended scopes (any depth) and one occurrence of a local renamed to another local of the tree; accepted ones evaluated"});
   props.push_back({"template_calls", soundTemplateProp, 800, 6000, false, false, "calls of functions whose parameter types are tuples / sets of tuples / nested sets over shared radicals, three quarters mutated; accepted ones evaluated"});
   props.push_back({"any_type_operands", anyTypeProp, 0, 0, true, false, "exhaustive: 32 operator forms x 6 spellings of an empty-typed operand x 9x9 sibling operands of every shape; accepted ones evaluated"});
+  props.push_back({"tuple_component_mismatch", tupleMismatchProp, 0, 0, true, false, "exhaustive: tuples of arity 2-3 that differ in one component (each position, two kinds of difference) in 12 operations that demand compatible operands"});
   props.push_back({"binder_confusion", binderProp, 1000, 8000, false, false, "binders of every pattern form over sets of tuples; variable uses swapped; accepted ones evaluated"});
   return pbt::main(argc, argv, "C02", props);
 }
